@@ -1,15 +1,55 @@
 """Per-property claim texts for MANIFEST.json (kept next to the registry in families.py)."""
-TECH = "bounded symbolic model checking of the real code (Kani/CBMC + CaDiCaL): "
+TECH = "bounded symbolic model checking of the real code (Kani 0.68 -> CBMC 6.11 -> CaDiCaL): "
+STEP = ("Each query runs ONE real operation (or internal maintenance function) of the compiled mini-moka code from a directly built state "
+        "satisfying the representation invariant and compares the complete post-state with a short reference model; values, popularity-sketch "
+        "contents (hence every estimate vector) and -- in the thorough tier and in the predicate lemmas -- all clock readings, durations and timestamps "
+        "are solver variables. Heap shape (n <= 2-3 residents, concrete keys/weights/capacity, LRU and write order) is enumerated outside the solver. "
+        "The step obligations compose to the history-level statement by the induction argument of DESIGN.md section 6 (trusted). ")
+SYNC = ("Concurrent cache: decided at function level on single-threaded container models (dashmap, crossbeam-channel): lookups, the map step of insert, "
+        "invalidate/invalidate_all, handle_remove, apply_reads and the update branch of handle_upsert; its admission/eviction/purge steps and Inner::sync "
+        "gave no verdict within 40 GB / 20 min and are NOT claimed; no thread schedule is explored. ")
+NOTE = ("Trusted: Kani/CBMC/CaDiCaL, rustc MIR; container models (4-slot maps, 4-slot queues); lock accessors of EntryInfo/AtomicInstant stubbed by lock-free twins "
+        "(sequential execution); Instant::now stubbed by a symbolic clock; unsync evict_expired replaced by a no-op in tail queries and decided separately; "
+        "the per-property induction/composition argument. Outside: > 3 residents, batch limits (100/500), u64 counter saturation, thread schedules, 384-slot queues.")
+def c(text, technique, note=NOTE):
+    return {"text": text, "technique": TECH + technique, "note": note}
 CLAIMS = {
- "C14": {
-  "text": "Every lemma of the estimator (bound 15, +1-saturating increment with exact frame, exact floor-halving reset, inductive count-min lower bound across aging, sizing) is decided by the SAT solver for ALL table contents, sizes and hashes at table lengths 1-8 on the compiled FrequencySketch code; the 'only get records' clause is decided on the cache operation harnesses.",
-  "note": "index_of is replaced by an uninterpreted function in the two-key lemmas (sound over-approximation; the real index_of is separately shown pure and in range); table lengths > 8 are outside the bound.",
-  "technique": TECH + "inductive step lemmas over arbitrary sketch states",
- },
+ "C01": c(STEP + SYNC + "C01 obligations: every lookup (get / contains_key / iteration filter) returns exactly the model's live value; insert replaces the value in one atomic map step; nothing but insert adds to the map.",
+          "one-step refinement to a lossy map, differential against a reference model"),
+ "C03": c(STEP + SYNC + "C03 obligations: no operation removes an entry the model keeps; a new key that fits is retained and evicts nothing (has_enough_capacity decided for all u64/u32 values); counters equal physical contents, so 'remaining room' is exact.",
+          "one-step refinement + full-width arithmetic lemmas on the capacity predicates"),
+ "C04": c(STEP + "C04 obligations (unsync; sync only for the update branch and handle_remove): resident weight <= max_capacity after every fresh insert incl. zero / oversized weights; excess of a grown update is removed by evict_lru_entries; capacity arithmetic for all values.",
+          "one-step inductive invariant on resident weight + arithmetic lemmas"),
+ "C05": c(STEP + SYNC + "C05: is_expired_entry_wo <=> last_modified + ttl <= now decided for ALL instants/durations at ns resolution (both caches, with the invalidate_all watermark); every lookup tail refuses an entry on/after its deadline (boundary, 1 ns before, zero and 1000-year durations); only insert/update write last_modified.",
+          "time as solver variables in the predicate lemmas + frame obligations per operation"),
+ "C06": c(STEP + SYNC + "C06: is_expired_entry_ao <=> last_accessed + tti <= now for all values; only insert/update/get-hit (unsync) resp. the recorded read (sync apply_reads) write last_accessed; contains_key / iteration / misses / maintenance of an update leave it untouched.",
+          "time as solver variables in the predicate lemmas + frame obligations per operation"),
+ "C07": c(STEP + SYNC + "C07: invalidate removes exactly the key in one atomic step and gives back its weight; invalidate_all empties the unsync cache / sets the sync watermark to now, hiding exactly the entries written at a strictly earlier reading (same-reading entries stay); invalidate_entries_if removes exactly the matching entries.",
+          "one-step obligations per invalidation form; watermark comparison symbolic"),
+ "C08": c("Every query of every family is also a memory-safety / overflow / panic-freedom query: CBMC checks pointer validity, double free, arithmetic overflow (debug semantics), unwrap/expect/unreachable!/assert!, slice bounds and unwinding assertions on all paths. Plus the inductive deque family: one operation of the intrusive list from an arbitrary well-formed list of length 0..4 with symbolic cursor and target (well-formedness, order, cursor, drops), and the sketch arithmetic lemmas (the reset underflow was found here).",
+          "CBMC built-in safety checks on all step queries + inductive intrusive-list lemmas"),
+ "C09": c("Sequential clauses only: Housekeeper::try_sync releases the maintenance flag on every path and runs sync exactly once for an arbitrary InnerSync; a queue at its flush point triggers maintenance for every clock reading (both regimes) and queue sizes >= flush points; schedule_write_op on a FULL queue runs maintenance itself, enqueues and never reaches the retry sleep (unwinding assertions = termination within the bound). Deadlock/livelock across threads is NOT decided (no schedules).",
+          "flag-discipline and trigger lemmas with symbolic clock; loop termination by unwinding assertions"),
+ "C10": c(STEP + SYNC + "C10: after every step entry_count / weighted_size equal the number / weight sum of what the map physically holds (found and fixed: 4 unsync defects); sync: handle_remove and the update branch of handle_upsert move the counters by exactly their own op's weights for all u32 weights, also with a stale (re-updated) shared EntryInfo.",
+          "counter == physical-sum invariant asserted after every step query"),
+ "C11": c("Drop-tracking element type in the deque family: unlink_and_drop / list drop release every element exactly once, other operations none; every cache step query checks that deque nodes exist iff the entry is resident (no leaked or ghost node) and CBMC checks double frees. Drop glue of whole caches and 'as soon as unreachable' for keys/values inside the caches are NOT decided (Arc/Rc drop glue of the full cache exceeded the memory cap).",
+          "drop-counting lemmas on the intrusive list + node/resident bijection in step queries"),
+ "C12": c(STEP + "C12: recency order after every step equals the model's (hit/update -> MRU, misses/contains/iter -> unchanged); victims of admission and of evict_lru_entries are exactly the shortest LRU prefix covering the needed weight incl. zero-weight entries and exact fits. Sync: apply_reads / applied updates refresh recency; eviction order on the sync cache is not decided.",
+          "concrete LRU positions make 'prefix' syntactic; deque order compared with the model after each step"),
+ "C13": c(STEP + "C13 (unsync): newcomer admitted <=> the shortest sufficient LRU prefix exists and freq(newcomer) > sum of its frequencies, with frequencies read through the real estimator just before the call and the sketch contents symbolic (every estimate vector incl. ties, colliding hasher, multi-victim prefixes, zero weights); on rejection nothing but the candidate changes. Sync admission is not decided.",
+          "admission decision differential against the reference predicate over symbolic sketch contents"),
+ "C14": c("Every lemma of the estimator (bound 15, +1-saturating increment with exact frame, exact floor-halving reset, inductive count-min lower bound across aging, sizing, size arithmetic) is decided for ALL table contents, sizes and hashes at table lengths 1-8 on the compiled FrequencySketch; 'only get records, exactly once' is decided on every cache step query by comparing the sketch bit-for-bit with a copy that received exactly the expected increments.",
+          "inductive step lemmas over arbitrary sketch states + sketch frame check in cache queries",
+          NOTE + " index_of is uninterpreted in the two-key lemmas (sound over-approximation; the real index_of is separately shown in range)."),
+ "C15": c(STEP + SYNC + "C15: contains_key and iteration leave the complete state bit-identical (values, weights, timestamps, recency order, sketch, counters, queues) apart from the purge, which is decided separately to remove exactly the expired entries; sync contains_key records no read op and performs one map read.",
+          "frame obligations: full post-state == pre-state"),
+ "C16": c(STEP + SYNC + "C16: exhausting unsync iter() yields every live pair exactly once with its current value and no expired pair (model iterator visits each slot once: trusted); the iteration filters (is_expired_entry, both caches) agree with the deadline/watermark model. Concurrent writers are not modelled.",
+          "iteration compared with the model's live set; filter predicate lemma"),
+ "C17": c("For ALL Option<u64> capacities, Option<Duration> ttl/tti <= 1000 y and initial capacities the unsync builder yields policy() and private fields exactly as configured; ensure_expirations_or_panic returns for every duration <= 1000 y and never returns beyond (from +1 ns); new(n) == max_capacity(n); initial_capacity inert; no weigher => weight 1; no max_capacity => size paths dead for all counter values. The sync builder shares ensure_expirations_or_panic; its constructor is exercised by every sync query but not compared field-wise.",
+          "symbolic configuration space, panic iff via expected-failure query"),
 }
 NOT_APPLICABLE = {
- "C02": "quantifies over thread schedules: Kani/CBMC has no concurrency semantics for Rust and a sequentialisation needs several whole operations per query, which is beyond what CBMC holds for this code (DESIGN.md section 3, 11)",
+ "C02": "quantifies over thread schedules: Kani/CBMC has no concurrency semantics for Rust, and a hand sequentialisation needs several whole operations per query while a single maintenance step of the concurrent cache already exceeds 40 GB (DESIGN.md sections 3, 11, 12); the sequential ingredients (one atomic map step per call, maintenance never writes values) are decided under C01",
 }
-for p in ["C01","C03","C04","C05","C06","C07","C08","C09","C10","C11","C12","C13","C15","C16","C17"]:
-    NOT_APPLICABLE.setdefault(p, "check under construction in this session (harness families not yet registered)")
-NOTES = "All checks: ./check <id> --tier quick|thorough. Exit 2 = inconclusive (time/memory cap, bound hit, vacuity, non-reproducing counterexample), never reported as success."
+NOTES = ("All checks: ./check <id> --tier quick|thorough. Exit 2 = inconclusive (time/memory cap, bound hit, vacuity, non-reproducing counterexample), never reported as success. "
+         "No hooks are committed in /repo; fix: commits b103bc6, 1aa3532, 9257e28, 58dc887, 8277078 repair the genuine defects listed in known_findings.json.")
